@@ -470,10 +470,13 @@ impl Session {
                 for _ in 0..max(0, spawn_num) {
                     self.spawn_peer_handler();
                 }
+
+                // Tracker job is finished only after successful response
+                self.kill_tracker().await;
             }
+            // Tracker job is still running (will try again), so don't wait for it
             TrackerCmd::Fail(e) => self.log(format!("Tracker fail: {}", e)).await,
         }
-        self.kill_tracker().await;
     }
 
     async fn handle_extractor_cmd(&mut self, cmd: ExtractorCmd) {
